@@ -132,6 +132,13 @@ pub fn replay_case(_ctx: &Ctx, sub: &'static str, case: &Case) -> Vec<(String, S
         .collect()
 }
 
+/// Re-executes `prev` and then `case` in the same thread (a history of two calls): for findings
+/// of the E3.pairs space, where the answer for an input depends on the call before it.
+pub fn replay_case_after(ctx: &Ctx, sub: &'static str, prev: &[u8], case: &Case) -> Vec<(String, String, String)> {
+    let _ = replay_case(ctx, sub, &Case::Input(prev.to_vec()));
+    replay_case(ctx, sub, case)
+}
+
 pub fn likely_kind(t: refmodel::likely::Triple) -> u32 {
     (t.0 != 0) as u32 * 4 + (t.1 != 0) as u32 * 2 + (t.2 != 0) as u32
 }
